@@ -16,7 +16,7 @@ from simverif.props import c12
 
 ID = 'C17'
 LEVEL = 'exploration'
-TIERS = {'quick': {'runs': 192}, 'thorough': {'seconds': 900}}
+TIERS = {'quick': {'runs': 384}, 'thorough': {'seconds': 900}}
 DET_PAIRS_PER_SLOT = 1
 RULE = ("family `single`: a settled 3..5 node network of real Nodes, then 300..1500 seeded datagrams delivered to "
         "the real KademliaProtocol.datagram_received of one node: valid ping/store/findNode/findValue requests, "
